@@ -57,6 +57,13 @@ CONFIG = {
     "VXLAN": cfg("tins/vxlan.h", "Tins::VXLAN", [("header_", "vxlan_header")], files=["src/vxlan.cpp", "include/tins/vxlan.h"],
                  names={"flags": ("get_flags", "set_flags"), "vni": ("get_vni", "set_vni")}),
     "STP": cfg("tins/stp.h", "Tins::STP", [("header_", "stp_header")], files=["src/stp.cpp", "include/tins/stp.h"]),
+    "PPPoE": cfg("tins/pppoe.h", "Tins::PPPoE", [("header_", "pppoe_header")], files=["src/pppoe.cpp", "include/tins/pppoe.h"]),
+    "SLL": cfg("tins/sll.h", "Tins::SLL", [("header_", "sll_header")], inner=False, files=["src/sll.cpp", "include/tins/sll.h"]),
+    "Dot3": cfg("tins/dot3.h", "Tins::Dot3", [("header_", "dot3_header")], files=["src/dot3.cpp", "include/tins/dot3.h"]),
+    "IPSecAH": cfg("tins/ipsec.h", "Tins::IPSecAH", [("header_", "ipsec_header")], inner=False, files=["src/ipsec.cpp", "include/tins/ipsec.h"]),
+    "IPSecESP": cfg("tins/ipsec.h", "Tins::IPSecESP", [("header_", "ipsec_header#2")], files=["src/ipsec.cpp", "include/tins/ipsec.h"]),
+    "DNS": cfg("tins/dns.h", "Tins::DNS", [("header_", "dns_header")], inner=False, files=["src/dns.cpp", "include/tins/dns.h"]),
+    "BootP": cfg("tins/bootp.h", "Tins::BootP", [("bootp_", "bootp_header")], inner=False, files=["src/bootp.cpp", "include/tins/bootp.h"]),
     "Dot11Data": cfg("tins/dot11/dot11_data.h", "Tins::Dot11Data", [("header_", "dot11_header"), ("ext_header_", "dot11_extended_header")],
                      files=["src/dot11/dot11_data.cpp", "include/tins/dot11/dot11_data.h", "src/dot11/dot11_base.cpp", "include/tins/dot11/dot11_base.h"],
                      bases=["Tins::Dot11"]),
@@ -106,9 +113,15 @@ def preprocessed(include):
 
 
 def find_struct_body(text, name):
-    m = re.search(r"\b(?:struct|union)\s+" + re.escape(name) + r"\s*\{", text)
-    if not m:
+    """body of `struct name { ... }`; `name#2` selects the second definition of that name in the header"""
+    nth = 1
+    if "#" in name:
+        name, n = name.split("#")
+        nth = int(n)
+    ms = list(re.finditer(r"\b(?:struct|union)\s+" + re.escape(name) + r"\s*\{", text))
+    if len(ms) < nth:
         return None
+    m = ms[nth - 1]
     i, depth = m.end(), 1
     while depth and i < len(text):
         depth += {"{": 1, "}": -1}.get(text[i], 0)
